@@ -149,6 +149,9 @@ class SymCtx(CtxBase):
             return core.sym_list_get(list(lst), i)
         return lst[i]
 
+    def fmt(self, f, *vals):
+        return core.sx_mod(f, tuple(vals))
+
     def alternatives(self, x):
         """[(cond, object)] for a merged lookup result; no forking"""
         if type(x) is SymChoice:
